@@ -71,6 +71,7 @@ type layout struct {
 	seed     uint64
 	escaping bool // some name needs URL escaping
 	huge     bool // pieces of 1 MiB and more
+	giant    bool // more than 4 GiB
 }
 
 func (l *layout) String() string {
@@ -141,6 +142,7 @@ type layoutOpts struct {
 	grow      bool // usually make the torrent at least a few blocks long
 	big       bool // prefer pieces of several blocks
 	huge      bool // now and then pieces of 1-4 MiB (storrent fetches at most 1 MiB, or 5 s worth, at a time)
+	giant     bool // now and then a torrent of more than 4 GiB (geometry only: no content is built)
 }
 
 // genLayout draws a valid geometry: 1–10 files (or single-file), padding
@@ -159,6 +161,14 @@ func genLayout(t *rapid.T, o layoutOpts) *layout {
 		o.maxPieces = 2
 		l.huge = true
 	}
+	var giantTotal int64
+	if o.giant && rapid.IntRange(0, 7).Draw(t, "giant") == 0 {
+		// more than 4 GiB: torrent offsets no longer fit 32 bits
+		l.ps = blk * rapid.SampledFrom([]int64{16, 64, 256}).Draw(t, "blocksPerGiantPiece")
+		l.giant = true
+		giantTotal = 1<<32 + rapid.SampledFrom([]int64{1, blk, l.ps, 3*l.ps + 1, 1 << 29}).Draw(t, "beyond4GiB")
+		o.maxPieces = int((giantTotal+1<<28)/l.ps) + 1
+	}
 	if o.maxPieces == 0 {
 		o.maxPieces = 5
 	}
@@ -171,6 +181,7 @@ func genLayout(t *rapid.T, o layoutOpts) *layout {
 		if l.huge {
 			l.total = max(l.total, rapid.SampledFrom([]int64{l.ps - blk, l.ps, l.ps, l.ps + 1, 2*l.ps - 1, 2 * l.ps}).Draw(t, "hugetotal"))
 		}
+		l.total = max(l.total, giantTotal)
 		l.total = fixTail(t, l.total, budget)
 		return l
 	}
@@ -226,6 +237,22 @@ func genLayout(t *rapid.T, o layoutOpts) *layout {
 			}
 			l.files[k].length += total - total0
 		}
+	}
+	if total < giantTotal {
+		// one of the real files is very long (it may lie before, across or
+		// after the 4 GiB line, depending on which)
+		var real []int
+		for k, f := range l.files {
+			if !f.pad {
+				real = append(real, k)
+			}
+		}
+		if len(real) == 0 {
+			l.files = append(l.files, fspec{path: []string{"big"}})
+			real = []int{len(l.files) - 1}
+		}
+		l.files[rapid.SampledFrom(real).Draw(t, "giantFile")].length += giantTotal - total
+		total = giantTotal
 	}
 	want := fixTail(t, max(total, 1), budget)
 	if want != total {
